@@ -12,7 +12,7 @@ from checks import thr_common as T
 INVARIANTS = ["TypeOK", "RunsOnce", "JoinAfterExit", "JoinValue", "ResultVisible", "SpawnFailsCleanly",
               "ReleasedExactlyOnce", "NoUseAfterRelease", "ClosureFreedUnlessPanic", "ResultDropped",
               "BaselineRestored"]
-FIXED = {"RecheckWord": True, "CheckClone": True, "MmapFirst": True, "DropResult": True}
+FIXED = {"RecheckWord": True, "RecheckDrop": True, "CheckClone": True, "MmapFirst": True, "DropResult": True}
 
 H_ACTIONS = {"HStartSpawn", "AllocTsm", "BoxClosure", "AfterClosure", "AllocTlsPinned", "Clone", "ReturnHandle",
              "HSkipOp", "JoinStart", "LoadAcquire", "LoadRelaxed", "FutexWait", "JoinReadSlot", "JoinFreeTsm",
@@ -39,7 +39,7 @@ def write_cfg(path, prog, fin, spurious=1, failm="NoThread", failc="NoThread", v
     nt = len(FINS[fin])
     lines = ["SPECIFICATION Spec", "CONSTANTS", " NT = %d" % nt, " Prog <- %s" % prog, " Fin <- %s" % fin,
              " Spurious = %d" % spurious, " FailMmap <- %s" % failm, " FailClone <- %s" % failc]
-    for k in ("RecheckWord", "CheckClone", "MmapFirst", "DropResult"):
+    for k in ("RecheckWord", "RecheckDrop", "CheckClone", "MmapFirst", "DropResult"):
         lines.append(" %s = %s" % (k, tla_bool(v[k])))
     lines.append(" KernelAtomic = %s" % tla_bool(katomic))
     if invariants:
@@ -100,9 +100,14 @@ def model_check(chk, tier):
 
 DEFECT_VARIANTS = [
     # (name, prog, fin, failm, failc, variant, invariants of which at least one must be violated / "deadlock")
-    ("pinned-single-wait-join", "ProgJ", "FinR", "NoThread", "NoThread", {"RecheckWord": False},
+    ("pinned-single-wait-join", "ProgJ", "FinR", "NoThread", "NoThread", {"RecheckWord": False, "RecheckDrop": False},
      {"JoinAfterExit", "ResultVisible", "NoUseAfterRelease", "JoinValue"}),
-    ("pinned-single-wait-drop", "ProgD", "FinR", "NoThread", "NoThread", {"RecheckWord": False},
+    ("pinned-single-wait-drop", "ProgD", "FinR", "NoThread", "NoThread", {"RecheckWord": False, "RecheckDrop": False},
+     {"NoUseAfterRelease"}),
+    # drop waits once while join keeps its loop (independent mutant ind-c06m3)
+    ("drop-single-wait-join-loops", "ProgD", "FinR", "NoThread", "NoThread", {"RecheckDrop": False},
+     {"NoUseAfterRelease"}),
+    ("drop-single-wait-join-loops-panic", "ProgD", "FinP", "NoThread", "NoThread", {"RecheckDrop": False},
      {"NoUseAfterRelease"}),
     ("pinned-clone-unchecked", "ProgJ", "FinR", "NoThread", "Only1", {"CheckClone": False},
      {"SpawnFailsCleanly", "deadlock"}),
@@ -442,7 +447,7 @@ def alg_validate(chk, col, cap=None, tag=""):
         cfg = os.path.join(d, name + ".cfg")
         lines = ["INIT AInit", "NEXT ANext", "CONSTANTS", " NT = 1", " Prog <- %s" % cls[0], " Fin <- %s" % cls[1],
                  " Spurious = 1", " FailMmap <- %s" % cls[2], " FailClone <- %s" % cls[3],
-                 " RecheckWord = TRUE", " CheckClone = TRUE", " MmapFirst = TRUE", " DropResult = TRUE",
+                 " RecheckWord = TRUE", " RecheckDrop = TRUE", " CheckClone = TRUE", " MmapFirst = TRUE", " DropResult = TRUE",
                  " KernelAtomic = FALSE", "INVARIANT Report", "CHECK_DEADLOCK FALSE"]
         open(cfg, "w").write("\n".join(lines) + "\n")
         jobs.append((name, cls, lst, path, cfg))
